@@ -20,18 +20,23 @@ def main():
         d = f"{ROOT}/seeded/{sid}"
         demo = open(d + "/demo.rs").read()
         head = "\n".join(demo.split("\n")[:6])
-        m = re.search(r"[Pp]lace at:?\s+(\S+?\.rs)", head)
+        m = re.search(r"(?i)place at:?\s+(\S+?\.rs)", head)
         if m:
             place = m.group(1)
         else:
             n = sid.split("-")[1]
             place = f"protocol/tests/demo_c05_{n}.rs"
         crate_dir = place.split("/")[0]
-        pkg = {"server": "selium-server", "protocol": "selium-protocol", "standard": "selium-std", "client": "selium"}[crate_dir]
+        pkg = {"server": "selium-server", "protocol": "selium-protocol", "standard": "selium-std", "client": "selium", "tests": "selium-tests"}[crate_dir]
         test = os.path.basename(place)[:-3]
-        feat = "--features compression " if "--features compression" in head else ""
+        mf = re.search(r"--features\s+([A-Za-z0-9_,-]+)", head)
+        feat = f"--features {mf.group(1)} " if mf else ""
         cmd_demo = f"cargo test -p {pkg} {feat}--test {test} --offline"
-        sh("git checkout -q -- . && git clean -fdq -e target")
+        sh("git checkout -q -- . && git clean -fdq -e target -e certs")
+        if crate_dir == "tests":
+            if not os.path.exists(WT + "/certs/server"):
+                sh("cargo run -p selium-tools --offline -- gen-certs -s certs/server -c certs/client 2>&1 | tail -2", timeout=1800)
+            sh("cargo build --workspace --offline 2>&1 | tail -3", timeout=1800)
         os.makedirs(os.path.dirname(f"{WT}/{place}"), exist_ok=True)
         open(f"{WT}/{place}", "w").write(demo)
         r0 = sh(cmd_demo + " 2>&1 | tail -15", timeout=1800)
@@ -63,6 +68,6 @@ def main():
         print(sid, "kept" if meta["kept"] else "NOT-CONFIRMED", json.dumps(meta["confirmed_in_scratch_worktree"])[:300], flush=True)
         if not meta["kept"]:
             open(d + "/confirm.log", "w").write(r0.stdout + "\n-----\n" + ap.stdout + b.stdout + t.stdout + "\n-----\n" + r1.stdout)
-    sh("git checkout -q -- . && git clean -fdq -e target")
+    sh("git checkout -q -- . && git clean -fdq -e target -e certs")
 
 main()
